@@ -11,7 +11,7 @@
 (*         inequality (soundness rule S2, bin/ratcheck.py)                  *)
 (*   cov : which clauses were evaluated non-vacuously on this line          *)
 (***************************************************************************)
-EXTENDS Integers, Sequences, FiniteSets, TLC, Json, IOUtils, Rat, SluStore, SluFactor, SluSolve
+EXTENDS Integers, Sequences, FiniteSets, TLC, Json, IOUtils, Rat, SluStore, SluFactor, SluSolve, SluEquil
 
 Tr == ndJsonDeserialize(IOEnv.TRACE)
 \* MODE = "light": storage / allocator clauses only (the numeric replay of the factorization is skipped;
@@ -349,6 +349,56 @@ GssvxVerdict(ev, sc) ==
   IN [bad |-> bad, arb |-> fv.arb \cup sv.arb, cov |-> cov, digs |-> IF factored /\ info = 0 THEN digs ELSE <<>>, d2 |-> fv.d2]
 
 (***************************************************************************)
+(* ?gsequ + ?laqgs on the log domain DL (C11): every logged quantity is     *)
+(* compared, as an exponent, with SluEquil's result for the same matrix.    *)
+(***************************************************************************)
+\* magnitude exponent of a DL token (real: +-2^e; complex: one component zero, or both of equal magnitude)
+Pow2Tok(t) == Len(t) = 2 /\ t[1] \in {1, -1} /\ t[2] \in -1100..1100
+ZeroTok(t) == Len(t) = 2 /\ t[1] = 0
+DLTok(t, cplx) == IF ~cplx THEN Pow2Tok(t) \/ ZeroTok(t)
+                  ELSE \/ (ZeroTok(t[1]) /\ (Pow2Tok(t[2]) \/ ZeroTok(t[2])))
+                       \/ (ZeroTok(t[2]) /\ Pow2Tok(t[1]))
+                       \/ (Pow2Tok(t[1]) /\ Pow2Tok(t[2]) /\ t[1][2] = t[2][2])
+MagExp(t, cplx) == IF ~cplx THEN (IF ZeroTok(t) THEN Z ELSE -t[2])
+                   ELSE IF ZeroTok(t[1]) THEN (IF ZeroTok(t[2]) THEN Z ELSE -t[2][2])
+                   ELSE IF ZeroTok(t[2]) THEN -t[1][2] ELSE -t[1][2] + 1
+\* expected token of a real quantity with exponent e (Z = zero)
+ExpTokIs(t, e) == IF e = Z THEN ZeroTok(t) ELSE IF e = INF THEN (Len(t) = 5 /\ t[5] = 88888) ELSE (Len(t) = 2 /\ t[1] = 1 /\ -t[2] = e)
+\* a stored component c0 (token) scaled by exponent shift `sh` under IEEE semantics of format F
+CompScaledIs(t1, t0, sh, F) ==
+  IF ZeroTok(t0) THEN ZeroTok(t1) \/ (Len(t1) = 5 /\ t1[5] = 99999)
+  ELSE LET s == -t0[2] + sh IN
+       IF s < F.dmin THEN ZeroTok(t1) ELSE IF s > F.emax THEN (Len(t1) = 5 /\ t1[5] = 88888) ELSE (Len(t1) = 2 /\ t1[1] = t0[1] /\ -t1[2] = s)
+EquVerdict(ev) ==
+  LET m == ev.m  n == ev.n  cplx == IsCplx(ev.ty)  F == FmtOf(ev.ty)
+      dl == \A t \in 1..Len(ev.A0) : DLTok(ev.A0[t][3], cplx)
+      Aexp == [ij \in Rows(m) \X Rows(n) |->
+                 LET S == {t \in 1..Len(ev.A0) : ev.A0[t][1] = ij[1] /\ ev.A0[t][2] = ij[2]} IN
+                 IF S = {} THEN Z ELSE MagExp(ev.A0[CHOOSE t \in S : TRUE][3], cplx)]
+      g == GsEqu(Aexp, m, n, F)
+      q == Decide(g, F)
+      shift(t) == (IF q \in {"R", "B"} THEN g.R[ev.A0[t][1]] ELSE 0) + (IF q \in {"C", "B"} THEN g.C[ev.A0[t][2]] ELSE 0)
+      entryOK(t) == IF cplx THEN CompScaledIs(ev.A1v[t][1], ev.A0[t][3][1], shift(t), F) /\ CompScaledIs(ev.A1v[t][2], ev.A0[t][3][2], shift(t), F)
+                    ELSE CompScaledIs(ev.A1v[t], ev.A0[t][3], shift(t), F)
+      bad == IF ~dl THEN {} ELSE
+        (IF ev.info # g.info THEN {"C11.info"} ELSE {})
+        \cup (IF ev.info = g.info /\ ~ExpTokIs(ev.amax, g.amax) THEN {"C11.amax"} ELSE {})
+        \cup (IF ev.info = 0 /\ g.info = 0 /\ (\E i \in 1..m : ~ExpTokIs(ev.R[i], g.R[i - 1])) THEN {"C11.row_factors"} ELSE {})
+        \cup (IF ev.info = 0 /\ g.info = 0 /\ (\E j \in 1..n : ~ExpTokIs(ev.C[j], g.C[j - 1])) THEN {"C11.col_factors"} ELSE {})
+        \cup (IF ev.info = 0 /\ g.info = 0 /\ ~(ExpTokIs(ev.rowcnd, g.rowcnd) /\ ExpTokIs(ev.colcnd, g.colcnd)) THEN {"C11.ratios"} ELSE {})
+        \cup (IF ev.info = 0 /\ g.info = 0 /\ ev.equed # q THEN {"C11.threshold_rule"} ELSE {})
+        \* a wrong entry whose two selected factors have a product beyond the overflow threshold is reported under
+        \* its own name (the factors are multiplied with each other first: known finding, DESIGN 9.13)
+        \cup (IF ev.info = 0 /\ g.info = 0 /\ ev.equed = q /\ (\E t \in 1..Len(ev.A0) : ~entryOK(t) /\ ~(q = "B" /\ g.R[ev.A0[t][1]] + g.C[ev.A0[t][2]] > F.emax))
+              THEN {"C11.scaled_entries"} ELSE {})
+        \cup (IF ev.info = 0 /\ g.info = 0 /\ ev.equed = q /\ (\E t \in 1..Len(ev.A0) : ~entryOK(t) /\ q = "B" /\ g.R[ev.A0[t][1]] + g.C[ev.A0[t][2]] > F.emax)
+              THEN {"C11.scaled_entries_factor_product_overflows"} ELSE {})
+        \cup (IF ev.info # 0 /\ (\E t \in 1..Len(ev.A0) : ev.A1v[t] # ev.A0[t][3]) THEN {"C11.A_modified_without_scaling"} ELSE {})
+        \cup (IF ev.Astruct_same # 1 THEN {"C11.structure_modified"} ELSE {})
+  IN [bad |-> bad \cup LedgerCls(ev, "_equ"), arb |-> (IF dl THEN {} ELSE {"C11.float_slice"}),
+      cov |-> (IF dl THEN {"C11.exact_DL", "C11.equed_" \o (IF g.info = 0 THEN q ELSE "info")} ELSE {})]
+
+(***************************************************************************)
 (* Rejected calls (C18): the routine reports the position SluScreen!Screen  *)
 (* computes from the violated preconditions, every caller object is byte-   *)
 (* identical and no allocation is retained.                                 *)
@@ -371,6 +421,7 @@ Verdict(ev, pm, sc) ==
         [] ev.fn = "gstrf" -> GstrfVerdict(ev)
         [] ev.fn \in {"gssvx", "gsisx"} -> GssvxVerdict(ev, sc)
         [] ev.fn = "screen" -> ScreenVerdict(ev)
+        [] ev.fn = "equ" -> EquVerdict(ev)
         [] OTHER -> [bad |-> (IF Has(ev, "ledger") THEN LedgerCls(ev, "_" \o ev.fn) ELSE {}), arb |-> {}, cov |-> {"ledger_only_" \o ev.fn}])
   ELSE IF ev.e = "Done" THEN
      [bad |-> (IF ev.status # "ok" THEN {"C19.abnormal_end_" \o ev.status} ELSE {}), arb |-> {}, cov |-> {}]
